@@ -40,6 +40,20 @@ CLAIMS = {
         'Known finding F20a (null~array one-directional, pinned by a stable subtest name) excluded by known_F20a and refuted by witness. No axioms.',
    technique='Coq proof by computation over tables regenerated from source + model/implementation correspondence for the guesser',
    ref='section 9, C20'),
+ 'C12': dict(
+   category='proof',
+   text='Coq theorems over the model of formats/json/scanner.go + json.go: for EVERY byte string, what Check() accepts is an RFC 8259 '
+        'JSON text (inductive grammar Spec/JsonGrammar.v), and with the trailing option a JSON value followed by anything; the scanner '
+        'never panics and never fails with an internal code, every error is 301/303 at an index inside the text. Proof by residual '
+        'languages: one closure lemma per abstract state and byte class, byte classes checked over all 256 bytes by computation. '
+        'The converse (every RFC 8259 text is accepted) is not yet a theorem: it rests on the correspondence (model = implementation on '
+        'all strings of up to 5 tokens over a 28-symbol alphabet, documents, truncations, mutations) and on the independent decoder '
+        '(python json, strict) that judges validity, the tree rebuilt from the lexeme stream, span containment and Len on every case.',
+   note='Trusted: Coq kernel incl. vm_compute (byte-class table); hand-written model tied by correspondence; extraction, driver, harness '
+        '(hook kit.VerifHasIndex); Spec/JsonGrammar.v. Texts that are not UTF-8 are outside the statement. No axioms.',
+   technique='Coq proof (residual languages against the RFC 8259 grammar, invariant over all configurations) + model/implementation '
+             'correspondence + independent-decoder oracle',
+   ref='section 9, C12'),
 }
 
 def main():
